@@ -1178,6 +1178,7 @@ class TempoClock(Clock, metaclass=MetaTempoClock):
             raise ClockError(
                 'TempoClock should only change beats_per_bar '
                 'within the scheduling thread')
+        bars_per_beat = 1 / value  # Raises before anything is changed.
         # setMeterAtBeat
         beats = self.beats
         self._base_bar = bi.round(
@@ -1185,7 +1186,7 @@ class TempoClock(Clock, metaclass=MetaTempoClock):
             self._bars_per_beat + self._base_bar, 1)
         self._base_bar_beat = beats
         self._beats_per_bar = value
-        self._bars_per_beat = 1 / value
+        self._bars_per_beat = bars_per_beat
         mdl.NotificationCenter.notify(self, 'meter')
 
     @property
